@@ -1,3 +1,4 @@
+import Proofs.LayerLogicTie
 import SynapModel.Layers
 import SynapModel.Modules
 import Mathlib.Algebra.Field.Basic
@@ -290,5 +291,12 @@ example : (let w := (Synap.Modules.newMod (Synap.Modules.newMod Synap.Modules.Wo
            let w := (Synap.Modules.sequential w [1, 0]).1
            (w.mods.map Synap.Modules.Mod.training, (Synap.Modules.setTraining true (Synap.Modules.fuelOf w) w 2).mods.map Synap.Modules.Mod.training))
     = ([false, true, true], [true, true, true]) := by decide
+
+/-! ### the decision logic of `BatchNorm.forward`, read from `layers.py` on this run (`Generated/LayerLogic.lean`, rewritten by
+    `harness/layer_logic.py` every time the check runs), is the logic of the layer model -/
+open Proofs.LayerLogicTie in
+/-- counter, averaging factor, use of batch statistics and passing of the running buffers, for every option setting, mode and
+    counter value, over any field -/
+theorem src_bn_forward_logic_is_model : type_of% @bn_forward_logic_is_model := @bn_forward_logic_is_model
 
 end Props.C13
